@@ -211,7 +211,7 @@ class Poly:
 
     def const_value(a):
         """complex value if the poly has no variables, else None"""
-        z = 0
+        z = 0j
         for (k, vs), c in a.t.items():
             if vs:
                 return None
@@ -274,6 +274,7 @@ class Poly:
 I_POLY = Poly.w(HALF)
 
 # ---------------------------------------------------------------- float lifting
+TINY_LITERAL = 1e-6
 _COS = [math.cos(math.pi * k / N) for k in range(N)]
 _LIFT_CACHE = {}
 
@@ -292,6 +293,12 @@ def lift_float(x):
     x = float(x)
     if x == 0.0:
         return Poly()
+    if abs(x) <= TINY_LITERAL:
+        # tiny literals (drop thresholds such as 1e-10) stay identifiable: a variable with a fixed value
+        v = CTX.real(f"tiny[{abs(x)!r}]", lo=F(abs(x)), hi=F(abs(x)), nonzero=True)
+        CTX.info[v]["value"] = abs(x)
+        CTX.info[v]["tiny"] = True
+        return Poly({(0, ((v, 1),)): F(1 if x > 0 else -1)})
     c = _LIFT_CACHE.get(x)
     if c is not None:
         return c
@@ -439,7 +446,9 @@ class Sym:
             e = int(e)
             if e == 2 and self._abs_of is not None:
                 a = self._abs_of
-                return Sym(a.mul(a.conj()))
+                sq = a.mul(a.conj())
+                CTX.__dict__.setdefault("nonneg", set()).add(sq.key())
+                return Sym(sq)
             if e < 0:
                 return Sym.of(1) / (self ** (-e))
             out, base = Poly.const(1), self.p
